@@ -106,7 +106,14 @@ func checkAPI(t rep.Fataler, ac APICase) {
 	handler.ServeHTTP(rec, req)
 	// StartAsync spawns in the background: give an (unauthorised!) spawn a moment to show
 	if rq.method != "GET" && strings.Contains(body, `"start"`) {
-		for i := 0; i < 40; i++ {
+		// an ACCEPTED start is waited for (event, generous bound: the spawn is
+		// asynchronous and the machine may be busy); a refused one gets 200 ms in
+		// which an unauthorised spawn would show
+		n := 40
+		if rec.Code/100 == 2 {
+			n = 2000 * sim.LoadFactor()
+		}
+		for i := 0; i < n; i++ {
 			if b, _ := os.ReadFile(h.Dir + "/fakeexe.log"); len(b) > 0 {
 				break
 			}
